@@ -27,7 +27,7 @@ def is_test_path(p):
 
 def inventory(crates):
     """crates: {name: raw crate dict}. Returns {"adts": {path: [crate, sig]}, "consts": {path: crate}, "free_fns": {path: crate}}"""
-    inv = {"adts": {}, "consts": {}, "free_fns": {}}
+    inv = {"adts": {}, "consts": {}, "free_fns": {}, "fns": {}}
     for name, d in crates.items():
         for a in d["adts"]:
             if not is_test_path(a["path"]):
@@ -40,6 +40,17 @@ def inventory(crates):
             it = items[f["item"]]
             if f["kind"] == "fn" and it.get("impl_self") is None and it.get("trait") is None and it.get("root") is None and not is_test_path(f["path"]):
                 inv["free_fns"][f["path"]] = name
+            # every inherent method / free function with its owner and signature (for renames)
+            if f["kind"] in ("fn", "method") and it.get("root") is None and it.get("impl_trait") is None and it.get("trait") is None and not is_test_path(f["path"]):
+                tys = d["types"]
+                sig = [tys[i]["s"] for i in f["locals"][:f["argc"] + 1]]
+                owner = it.get("impl_self_def") or it.get("impl_self") or ""
+                callees = set()
+                for b in f["blocks"]:
+                    t = b["t"]
+                    if t.get("k") == "call" and isinstance(t.get("f"), dict) and "decl" in t["f"]:
+                        callees.add(items[t["f"]["decl"]]["path"])
+                inv["fns"][f["path"]] = [name, owner, json.dumps(sig), sorted(callees)]
     return inv
 
 
@@ -68,7 +79,91 @@ def compute(crates):
             c = [q for q, cr2 in new.items() if cr2 == cr and q.rsplit("::", 1)[1] == name]
             if len(c) == 1 and c[0] not in out:
                 out[c[0]] = p
+    # renamed (or renamed and moved) functions: same crate, same owner type, same signature, unique
+    new = {p: v for p, v in cur["fns"].items() if p not in base.get("fns", {})}
+    for p, ent in base.get("fns", {}).items():
+        cr, owner, sig = ent[:3]
+        body = set(ent[3]) if len(ent) > 3 else set()
+        if p in cur["fns"] or p in out.values():
+            continue
+        # the owner may itself have been moved/renamed
+        owners = {owner} | {n for n, o in out.items() if o == owner}
+        c = [q for q, e2 in new.items() if e2[0] == cr and e2[1] in owners and _same_sig(sig, e2[2], out) and q not in out]
+        if len(c) > 1 and body:
+            # several renamed functions share a signature: the body (set of callees) decides, if clearly
+            def sim(q):
+                b2 = set(new[q][3]) if len(new[q]) > 3 else set()
+                return len(body & b2) / float(len(body | b2) or 1)
+            ranked = sorted(c, key=sim, reverse=True)
+            if sim(ranked[0]) >= 0.6 and sim(ranked[0]) - sim(ranked[1]) >= 0.2:
+                c = [ranked[0]]
+        if len(c) == 1:
+            out[c[0]] = p
     return out
+
+
+def _same_sig(a, b, aliases):
+    if a == b:
+        return True
+    for n, o in aliases.items():
+        b = b.replace(n, o)
+    return a == b
+
+
+def field_aliases(crates, path_aliases):
+    """{(adt path, new field name): reviewed field name}: a reviewed field that vanished from a type that still exists
+    (after path aliasing) and exactly one new field of the same type in the same variant."""
+    if not os.path.exists(TABLE):
+        return {}
+    with open(TABLE) as fh:
+        base = json.load(fh)
+    out = {}
+    for name, d in crates.items():
+        for a in d["adts"]:
+            p = a["path"]
+            if p not in base["adts"] or is_test_path(p):
+                continue
+            bsig = json.loads(base["adts"][p][1])
+            csig = json.loads(adt_signature(a, d["types"]))
+            bset, cset = set(map(tuple, bsig)), set(map(tuple, csig))
+            gone = [x for x in bset - cset]
+            new = [x for x in cset - bset]
+            for (v, fname, ty) in gone:
+                c = [y for y in new if y[0] == v and y[2] == ty]
+                g = [y for y in gone if y[0] == v and y[2] == ty]
+                if len(c) == 1 and len(g) == 1 and fname is not None and c[0][1] is not None:
+                    out[(p, c[0][1])] = fname
+    return out
+
+
+def apply_fields(raw, fal):
+    """rename fields in place in the parsed fact dicts: projections {"n","o"}, ADT definitions and aggregates"""
+    if not fal:
+        return
+    owners = set(p for p, _ in fal)
+
+    def walk(x):
+        if isinstance(x, dict):
+            o = x.get("o")
+            if isinstance(o, str) and o in owners and (o, x.get("n")) in fal:
+                x["n"] = fal[(o, x["n"])]
+            if x.get("k") == "agg" and x.get("def") in owners and isinstance(x.get("fields"), list):
+                x["fields"] = [fal.get((x["def"], n), n) for n in x["fields"]]
+            for v in x.values():
+                if isinstance(v, (dict, list)):
+                    walk(v)
+        elif isinstance(x, list):
+            for v in x:
+                if isinstance(v, (dict, list)):
+                    walk(v)
+    for d in raw.values():
+        for a in d["adts"]:
+            if a["path"] in owners:
+                for v in a.get("variants", []):
+                    for f in v.get("fields", []):
+                        if (a["path"], f.get("name")) in fal:
+                            f["name"] = fal[(a["path"], f["name"])]
+        walk(d["fns"])
 
 
 def apply(texts, aliases):
